@@ -254,6 +254,48 @@ func (r *rec) fileTest(lines [][]byte, epochs []int, digest bool, subs int) {
 			}
 			r.emit(&Ev{Ev: "eoe"})
 		}
+		if n > 0 {
+			// a window read part of the way, rewound and read again from its start (across read-buffer refills in
+			// the big-line file): the second reading is the window, whole and in order
+			s0 := r.rng.Intn(n)
+			e0 := s0 + r.rng.Intn(n-s0+1)
+			if r.rng.Intn(2) == 0 {
+				s0, e0 = 0, n
+			}
+			c, err := ch.Open(ep, s0, e0)
+			if err != nil {
+				panic(err)
+			}
+			for k := r.rng.Intn(e0 - s0 + 1); k > 0; k-- {
+				if _, err := c.Read(); err != nil {
+					break
+				}
+			}
+			if err := c.Rewind(); err != nil {
+				panic(err)
+			}
+			reads := [][]any{}
+			for {
+				line, err := c.Read()
+				if err != nil {
+					if err == io.EOF {
+						break
+					}
+					panic(err)
+				}
+				ix, ok := index[string(line)]
+				if !ok {
+					ix = -1
+				}
+				if digest {
+					reads = append(reads, []any{ix, dig(line)})
+				} else {
+					reads = append(reads, []any{ix, string(line)})
+				}
+			}
+			c.Close()
+			r.emit(&Ev{Ev: "sub", Epoch: strconv.Itoa(ep), S: s0, E: e0, Reads: &reads})
+		}
 		for i := 0; i < subs && n > 0; i++ {
 			s := r.rng.Intn(n)
 			e := s + r.rng.Intn(n-s+1)
